@@ -42,6 +42,7 @@ type cancelCtx struct {
 	hasDl    bool
 	vt       *mc.VTimer
 	key, val any
+	cause    error
 }
 
 func (c *cancelCtx) Deadline() (realtime.Time, bool) {
@@ -62,17 +63,22 @@ func (c *cancelCtx) Err() error {
 func (c *cancelCtx) Value(key any) any { return c.parent.Value(key) }
 
 // cancelNow runs without a scheduling point (also used from timer callbacks).
-func (c *cancelCtx) cancelNow(err error) {
+func (c *cancelCtx) cancelNow(err error) { c.cancelCause(err, nil) }
+
+func (c *cancelCtx) cancelCause(err, cause error) {
 	if c.err != nil {
 		return
 	}
-	c.err = err
+	if cause == nil {
+		cause = err
+	}
+	c.err, c.cause = err, cause
 	c.done.CloseNow()
 	if c.vt != nil {
 		c.vt.Stop()
 	}
 	for _, ch := range c.children {
-		ch.cancelNow(err)
+		ch.cancelCause(err, cause)
 	}
 	c.children = nil
 }
@@ -81,7 +87,7 @@ func newCancelCtx(parent Context) *cancelCtx {
 	c := &cancelCtx{parent: parent, done: mc.MakeChan[struct{}](0)}
 	if p, ok := parent.(*cancelCtx); ok {
 		if p.err != nil {
-			c.cancelNow(p.err)
+			c.cancelCause(p.err, p.cause)
 		} else {
 			p.children = append(p.children, c)
 		}
@@ -89,7 +95,7 @@ func newCancelCtx(parent Context) *cancelCtx {
 		_ = pv
 		if pc := pv.cancelParent(); pc != nil {
 			if pc.err != nil {
-				c.cancelNow(pc.err)
+				c.cancelCause(pc.err, pc.cause)
 			} else {
 				pc.children = append(pc.children, c)
 			}
@@ -152,3 +158,58 @@ func (v *valueCtx) cancelParent() *cancelCtx {
 }
 
 func WithValue(parent Context, key, val any) Context { return &valueCtx{parent, key, val} }
+
+type CancelCauseFunc func(cause error)
+
+// WithCancelCause is WithCancel whose cancel function records a cause (see Cause).
+func WithCancelCause(parent Context) (Context, CancelCauseFunc) {
+	mc.Point("context.WithCancelCause")
+	c := newCancelCtx(parent)
+	return c, func(cause error) {
+		mc.Point("cancel(cause)")
+		c.cancelCause(Canceled, cause)
+		mc.After("cancel")
+	}
+}
+
+// Cause returns the cause recorded when c (or the ancestor that ended it) was cancelled, the
+// context's error if no cause was given, and nil while c is live.
+func Cause(c Context) error {
+	mc.Point("context.Cause")
+	for {
+		switch x := c.(type) {
+		case *cancelCtx:
+			return x.cause
+		case *valueCtx:
+			c = x.Context
+			continue
+		}
+		return c.Err()
+	}
+}
+
+func WithDeadlineCause(parent Context, d realtime.Time, cause error) (Context, CancelFunc) {
+	ctx, cancel := WithDeadline(parent, d)
+	if c, ok := ctx.(*cancelCtx); ok && c.hasDl {
+		if c.err == DeadlineExceeded {
+			c.cause = cause
+		} else if c.vt != nil {
+			c.vt.Stop()
+			c.vt = mc.AddTimer(int64(mctime.Until(d)), "ctx deadline", func() { c.cancelCause(DeadlineExceeded, cause) })
+		}
+	}
+	return ctx, cancel
+}
+
+func WithTimeoutCause(parent Context, d realtime.Duration, cause error) (Context, CancelFunc) {
+	return WithDeadlineCause(parent, mctime.Now().Add(d), cause)
+}
+
+type withoutCancel struct{ Context }
+
+func (withoutCancel) Deadline() (realtime.Time, bool) { return realtime.Time{}, false }
+func (withoutCancel) Done() *mc.Chan[struct{}]        { return nil }
+func (withoutCancel) Err() error                      { return nil }
+
+// WithoutCancel keeps parent's values and drops its cancellation.
+func WithoutCancel(parent Context) Context { return withoutCancel{parent} }
